@@ -617,3 +617,65 @@ impl SimChain {
         serde_json::json!({ "pow": self.pow, "blocks": blocks })
     }
 }
+
+impl SimChain {
+    /// A child of `parent` that passes every stateless check (parent hash, number, epoch, PoW,
+    /// extension committing to the chain root it is sent with) but whose chain root is made up:
+    /// it claims `claimed_parent_td` as the total difficulty up to the parent.
+    pub fn forge_child(&mut self, parent: usize, claimed_parent_td: U256) -> usize {
+        let (phash, pnum, pepoch, compact, pts, real_root) = {
+            let p = &self.blocks[parent];
+            (
+                p.header.hash(),
+                p.num,
+                p.header.epoch(),
+                p.header.compact_target(),
+                p.header.timestamp(),
+                self.chain_root(parent, p.num),
+            )
+        };
+        let epoch = if parent == 0 {
+            EpochNumberWithFraction::new(0, 1, 10)
+        } else if pepoch.index() + 1 < pepoch.length() {
+            EpochNumberWithFraction::new(pepoch.number(), pepoch.index() + 1, pepoch.length())
+        } else {
+            EpochNumberWithFraction::new(pepoch.number() + 1, 0, pepoch.length())
+        };
+        let forged_root = real_root
+            .as_builder()
+            .total_difficulty(claimed_parent_td.pack())
+            .build();
+        let ext: packed::Bytes = forged_root.calc_mmr_hash().as_bytes().pack();
+        let id = self.blocks.len();
+        let cellbase = TransactionBuilder::default()
+            .input(CellInput::new_cellbase_input(pnum + 1))
+            .output(
+                CellOutput::new_builder()
+                    .capacity(Capacity::bytes(1000).unwrap().pack())
+                    .build(),
+            )
+            .output_data(Bytes::from((id as u64).to_le_bytes().to_vec()).pack())
+            .build();
+        let block0 = BlockBuilder::default()
+            .parent_hash(phash)
+            .number((pnum + 1).pack())
+            .epoch(epoch.pack())
+            .compact_target(compact.pack())
+            .timestamp((pts + 1000).pack())
+            .transaction(cellbase)
+            .extension(Some(ext.clone()))
+            .build();
+        let block = self.seal(block0, true);
+        let rid = self.register_foreign(
+            parent,
+            block.header(),
+            block.calc_uncles_hash(),
+            Some(ext),
+            forged_root,
+            true,
+            true,
+        );
+        self.blocks[rid].block = block;
+        rid
+    }
+}
